@@ -11,7 +11,7 @@ pub fn def() -> PropDef {
 	PropDef {
 		id: "C02",
 		level: "fault_enumeration",
-		rule: "generated scenarios over hash / hash-rc / btree / btree-rc / multitree columns (multi-column transactions, single+multipart values, single pipeline steps); for each scenario EVERY stop point (op s, file-operation index n inside op s) of every pipeline op (P/F/E/C/R/Drain/Reopen) is enumerated up to a per-scenario cap (then sampled with the case seed), each with the directory copied at that instant, optionally the unsynced log tail cut at a generated length, optionally further crashes inside recovery (every file-operation index of Db::open sampled, depth <= 2/3). Oracle: Db::open succeeds, observed state (all keys of the universe, all trees) equals the model after some prefix p <= committed; then a tail of further commits is applied and checked, drained, reopened. Non-trivial = the stop point is strictly inside an op (the op returned the injected error) and the image holds a non-empty log; distinct = distinct (scenario, stop point) pairs",
+		rule: "generated scenarios over hash / hash-rc / btree / btree-rc / multitree columns (multi-column transactions, single+multipart values, single pipeline steps); for each scenario EVERY stop point (op s, file-operation index n inside op s) of every pipeline op (P/F/E/C/R/Drain/Reopen) is enumerated up to a per-scenario cap (then sampled with the case seed), each with the directory copied at that instant, optionally the unsynced log tail cut at a generated length, optionally further crashes inside recovery (every file-operation index of Db::open sampled, depth <= 2/3). Oracle: Db::open succeeds, observed state (all keys of the universe, all trees) equals the model after some prefix p <= committed; then a tail of further commits is applied and checked, drained, reopened. Sub-run `kill`: a child process runs generated commits with the REAL worker threads, acknowledging each on a pipe, and is SIGKILLed after a generated number of acknowledgements plus a generated delay (any instant, also between two memory-mapped table writes); the reopened directory must equal a prefix p <= acknowledged+1 and keep working (incl. the raw layout check). Non-trivial = the stop point is strictly inside an op (the op returned the injected error) and the image holds a non-empty log (kill runs: always); distinct = distinct (scenario, stop point) pairs",
 		assumptions: &[
 			"process-crash model: file content at the crash instant is what a later open sees (no page loss - that is C12); the unsynced tail of a log file may additionally be cut at any byte",
 			"stop points are the library's own try_io! sites (feature instrumentation); table writes through mmap between two such sites are covered by the boundary images before and after",
@@ -351,6 +351,171 @@ pub fn run_crash_case(case: &CrashCase, dir: &Path, opts: &CrashOpts) -> CaseRes
 	Ok(out)
 }
 
+// ------------------------------------------------------------------------------------------
+// kill mode: a child process with the REAL worker threads is SIGKILLed at a generated moment
+
+#[derive(Clone, Debug, Serialize, Deserialize)]
+pub struct KillCase {
+	pub sc: Scenario,
+	/// kill after this many acknowledged commits (monotone selector)
+	pub after_acks: u16,
+	/// ... plus this many microseconds
+	pub delay_us: u16,
+}
+
+/// Child side: runs the commits of the scenario with background workers, acknowledging each.
+pub fn kill_child_main(dir: &str, scenario_file: &str) -> i32 {
+	use std::io::Write;
+	let sc: Scenario = match std::fs::read(scenario_file).ok().and_then(|b| serde_json::from_slice(&b).ok()) {
+		Some(s) => s,
+		None => return 2,
+	};
+	let mut it = Interp::new(&sc.cfg, Path::new(dir), Interp::universe_of(&sc));
+	it.background = true;
+	it.check_every_op = false;
+	if it.open().is_err() {
+		return 2
+	}
+	println!("READY");
+	let _ = std::io::stdout().flush();
+	let mut n = 0;
+	let stdin = std::io::stdin();
+	for op in &sc.ops {
+		if let Op::Commit(_) = op {
+			// one token from the parent per commit: the parent decides how far the history goes
+			let mut tok = String::new();
+			if std::io::BufRead::read_line(&mut stdin.lock(), &mut tok).unwrap_or(0) == 0 {
+				break
+			}
+			if it.step(op).is_err() {
+				return 2
+			}
+			n += 1;
+			println!("ACK {n}");
+			let _ = std::io::stdout().flush();
+		}
+	}
+	println!("DONE");
+	let _ = std::io::stdout().flush();
+	// stay alive (workers keep running) until killed
+	std::thread::sleep(std::time::Duration::from_secs(30));
+	0
+}
+
+fn kill_scenario() -> impl Strategy<Value = Scenario> {
+	mixed_cfg(3, false).prop_flat_map(|cfg| {
+		proptest::collection::vec(mixed_items(&cfg, 12, 40_000, 6, 3).prop_map(Op::Commit), 3..25).prop_map(move |ops| Scenario { cfg: cfg.clone(), ops })
+	})
+}
+
+pub fn run_kill_case(case: &KillCase, dir: &Path) -> CaseResult {
+	use std::io::{BufRead, BufReader};
+	let mut out = CaseOut::default();
+	let sc = &case.sc;
+	// the prefix models, from a fault-free stepping run of the same commits
+	let mut model_it = Interp::new(&sc.cfg, &dir.join("model"), Interp::universe_of(sc));
+	model_it.keep_prefix = true;
+	model_it.check_every_op = false;
+	model_it.open()?;
+	for op in &sc.ops {
+		model_it.step(op)?;
+	}
+	let prefix = model_it.prefix.clone();
+	let universe = model_it.universe.clone();
+	let total = model_it.committed;
+	drop(model_it);
+	let _ = std::fs::remove_dir_all(dir.join("model"));
+	// the child
+	let db_dir = dir.join("db");
+	let scf = dir.join("scenario.json");
+	std::fs::write(&scf, serde_json::to_vec(sc).unwrap()).map_err(|e| Failure::new("harness-io", e.to_string()))?;
+	let exe = std::env::current_exe().map_err(|e| Failure::new("harness-io", e.to_string()))?;
+	let mut child = std::process::Command::new(exe)
+		.args(["kill-child", db_dir.to_str().unwrap(), scf.to_str().unwrap()])
+		.stdin(std::process::Stdio::piped())
+		.stdout(std::process::Stdio::piped())
+		.stderr(std::process::Stdio::null())
+		.spawn()
+		.map_err(|e| Failure::new("harness-io", e.to_string()))?;
+	let mut reader = BufReader::new(child.stdout.take().unwrap());
+	let mut child_in = child.stdin.take().unwrap();
+	let target = pick(case.after_acks, total + 1);
+	let mut acks = 0usize;
+	let mut line = String::new();
+	let done = target >= total;
+	{
+		use std::io::Write;
+		// all tokens at once: the child commits back to back while its workers run
+		let _ = child_in.write_all("c\n".repeat(target).as_bytes());
+		let _ = child_in.flush();
+	}
+	loop {
+		if acks >= target {
+			break
+		}
+		line.clear();
+		match reader.read_line(&mut line) {
+			Ok(0) | Err(_) => break,
+			Ok(_) =>
+				if line.starts_with("ACK") {
+					acks += 1;
+				},
+		}
+	}
+	std::thread::sleep(std::time::Duration::from_micros(case.delay_us as u64));
+	let _ = child.kill();
+	let _ = child.wait();
+	drop(child_in);
+	// anything acknowledged later than what we read may also have happened
+	let mut later = String::new();
+	use std::io::Read;
+	let _ = reader.read_to_string(&mut later);
+	let acked_total = acks + later.lines().filter(|l| l.starts_with("ACK")).count();
+	let committed = acked_total.min(total);
+	let info = ImageInfo {
+		faulted: true,
+		committed,
+		synced: 0,
+		cleaned: 0,
+		cleaned_or_enacted: 0,
+		last_enacted_record: 0,
+		had_log: true,
+		cut_inside: false,
+		prefix,
+		addr: Default::default(),
+		universe,
+		labels: Default::default(),
+	};
+	let sp = StopPoint { op: sc.ops.len(), n: 0, cut: None, recover_n: vec![] };
+	let rec = recover_and_check(sc, &info, &sp, &db_dir, dir, 0).map_err(|f| Failure::new(format!("kill:{}", f.sig), format!("child killed after {acked_total} acknowledged commits (+{} us): {}", case.delay_us, f.detail)))?;
+	let p = rec.prefix_index;
+	if rec.candidates.len() == 1 {
+		let mut it = rec.interp;
+		let r: Res<()> = (|| {
+			it.check_reads(true)?;
+			for op in sc.ops.iter().take(2) {
+				it.step(op)?;
+			}
+			it.step(&Op::Drain)?;
+			it.check_reads(true)?;
+			it.step(&Op::Reopen)?;
+			it.check_reads(true)?;
+			it.close();
+			crate::layout::check_dir_opts(&it.cfg, &it.dir, Some(&it), true).map_err(|e| Failure::new(format!("layout:{}", e.sig), e.detail))?;
+			Ok(())
+		})();
+		r.map_err(|f| Failure::new(format!("kill:after-recovery:{}", f.sig), format!("child killed after {acked_total} acknowledged commits, recovered at prefix {p}: {}", f.detail)))?;
+	}
+	out.count(&format!("acked_minus_recovered:{}", (acked_total as i64 - p as i64).clamp(-1, 4)), 1);
+	if !done && acked_total < total {
+		out.label("killed-mid-history");
+	} else {
+		out.label("killed-after-last-commit");
+	}
+	out.nontrivial = true;
+	Ok(out)
+}
+
 fn run(ctx: &Ctx) {
 	let thorough = ctx.tier == "thorough";
 	let opts = CrashOpts { cap: if thorough { 400 } else { 150 }, rec_depth: if thorough { 3 } else { 2 }, synced_bound: false, tail: true, layout: false, tolerate_known: true };
@@ -360,11 +525,30 @@ fn run(ctx: &Ctx) {
 	}
 	if thorough {
 		let n = scaled(ctx, 0, 700);
-		ctx.run_prop_shrink("large", n, 60, crash_case(4, 12, 40, true), |c, dir| run_crash_case(c, dir, &opts));
+		if !ctx.run_prop_shrink("large", n, 60, crash_case(4, 12, 40, true), |c, dir| run_crash_case(c, dir, &opts)) {
+			return
+		}
 	}
+	// kill mode: real worker threads, SIGKILL at a generated moment (any instant, not only the
+	// library's file-operation sites)
+	let n = scaled(ctx, 280, 14_000);
+	ctx.run_prop_shrink(
+		"kill",
+		n,
+		30,
+		(kill_scenario(), any::<u16>(), prop_oneof![Just(0u16), 0u16..2000, 0u16..30000]).prop_map(|(sc, after_acks, delay_us)| KillCase { sc, after_acks, delay_us }),
+		run_kill_case,
+	);
 }
 
 fn replay(ctx: &Ctx, path: &Path) -> Result<(), Failure> {
+	let v: serde_json::Value = serde_json::from_str(&std::fs::read_to_string(path).map_err(|e| Failure::new("bad-replay", e.to_string()))?)
+		.map_err(|e| Failure::new("bad-replay", e.to_string()))?;
+	if v.get("sub").and_then(|s| s.as_str()) == Some("kill") {
+		let (_s, case): (String, KillCase) = load_replay(path).map_err(|e| Failure::new("bad-replay", e))?;
+		let dir = ctx.case_dir();
+		return guarded(|| run_kill_case(&case, &dir)).map(|_| ())
+	}
 	let (_sub, case): (String, CrashCase) = load_replay(path).map_err(|e| Failure::new("bad-replay", e))?;
 	let dir = ctx.case_dir();
 	let opts = CrashOpts { cap: 400, rec_depth: 2, synced_bound: false, tail: true, layout: false, tolerate_known: true };
